@@ -268,6 +268,8 @@ func (h *HttpServer) handleStreamInit(w http.ResponseWriter, r *http.Request) {
 	if info.HasHeader && streamResult.Header != nil {
 		initLogs := callCtx.drainLogs()
 		if err := h.server.writeStreamHeader(&buf, streamResult.Header, initLogs); err != nil {
+			// The client is told the call failed; the dispatch-end hook must be too.
+			handlerErr = err
 			h.writeHttpError(w, http.StatusInternalServerError, err, nil)
 			return
 		}
@@ -311,6 +313,7 @@ func (h *HttpServer) handleStreamInit(w http.ResponseWriter, r *http.Request) {
 		// Exchange init — return state token (carry schema for dynamic methods)
 		token, err := h.packCursorTokenFor(method, callID, state, auth)
 		if err != nil {
+			handlerErr = err
 			h.writeHttpError(w, http.StatusInternalServerError, err, nil)
 			return
 		}
@@ -322,6 +325,7 @@ func (h *HttpServer) handleStreamInit(w http.ResponseWriter, r *http.Request) {
 		}
 		callToken, err := h.packCallTokenWithInput(callID, outputSchema, declaredInput, auth, streamID)
 		if err != nil {
+			handlerErr = err
 			h.writeHttpError(w, http.StatusInternalServerError, err, nil)
 			return
 		}
@@ -597,8 +601,8 @@ func (h *HttpServer) handleStreamExchange(w http.ResponseWriter, r *http.Request
 		var schemaErr error
 		outputSchema, schemaErr = deserializeSchema(call.SchemaIPC)
 		if schemaErr != nil {
-			h.writeHttpError(w, http.StatusBadRequest,
-				&RpcError{Type: "RuntimeError", Message: fmt.Sprintf("failed to recover output schema: %v", schemaErr)}, nil)
+			handlerErr = &RpcError{Type: "RuntimeError", Message: fmt.Sprintf("failed to recover output schema: %v", schemaErr)}
+			h.writeHttpError(w, http.StatusBadRequest, handlerErr, nil)
 			return
 		}
 	} else {
